@@ -32,6 +32,10 @@ pub fn check(tier: Tier) -> Check {
         (4_294_967_294, 4_000_000_000),
         (4_294_967_294, 5_000_000_000), // elapsed beyond u32: expired
         (86_400, 3_000),
+        // exactly the interval: elapsed >= interval holds however long the run takes, so "expired" is
+        // the only possible answer (one second less would depend on the real clock and is not used)
+        (1000, 1000),
+        (1, 1),
     ] {
         parts.push(Part::new(
             "C17/resume",
@@ -130,7 +134,7 @@ pub fn scenario(name: &str, params: &Value) -> Scenario {
             sys.apply(Ev::Eof);
         }
         if !sys.dead {
-            let expired = expiry == 0 || (expiry != u32::MAX && secs_ago > expiry as u64);
+            let expired = expiry == 0 || (expiry != u32::MAX && secs_ago >= expiry as u64);
             sys.events.push(format!("MarkDisconnected({}s ago); Reconnect", secs_ago));
             sys.classes.push("Reconnect".into());
             sys.w.cmd(CtxCmd::MarkDisconnected(secs_ago));
